@@ -899,3 +899,161 @@ Proof.
       rewrite free_transl. apply free_paint_local. unfold shift. rewrite padd_assoc. reflexivity.
     + rewrite (IH q Hc' Hk). destruct (g_vis g q); [|reflexivity]. apply free_conv.
 Qed.
+
+(* ---- the four adapters, stated on the real parent target ------------------------------------------- *)
+Lemma clip_call_fits ca c : rect_fits ca -> call_fits c -> call_fits (clip_call ca c).
+Proof.
+  intros Ha Hc. destruct c as [ps|area cs|area col|col]; cbn [clip_call call_fits clip_fill_solid] in *; try exact I.
+  - destruct (rect_eqb _ area); cbn [call_fits]; [assumption|apply intersection_fits; assumption].
+  - apply intersection_fits; assumption.
+  - apply intersection_fits; assumption.
+Qed.
+
+Lemma rect_fits_nonneg r : rect_fits r -> size_nonneg r.
+Proof. intros [H _]. apply size_fits_nonneg. exact H. Qed.
+
+Theorem clip_no_escape a bb k c m p :
+  rect_fits a -> rect_fits bb -> call_fits c ->
+  contains (intersection a bb) p = false ->
+  paint bb k (lower1c (Clip a) bb c) m p = m p.
+Proof.
+  intros Ha Hb Hc Hp. cbn [lower1c]. pose proof (intersection_fits a bb Ha Hb) as Hi.
+  rewrite paint_root by (intros _; split; [assumption|apply clip_call_fits; assumption]).
+  rewrite free_clip by (first [apply call_fits_sizes; assumption|apply rect_fits_nonneg; assumption]).
+  rewrite Hp. destruct (contains bb p); reflexivity.
+Qed.
+
+Theorem clip_exact a bb k c m p :
+  rect_fits a -> rect_fits bb -> call_fits c ->
+  contains (intersection a bb) p = true ->
+  paint bb k (lower1c (Clip a) bb c) m p = paint bb k c m p.
+Proof.
+  intros Ha Hb Hc Hp. cbn [lower1c]. pose proof (intersection_fits a bb Ha Hb) as Hi.
+  rewrite paint_root by (intros _; split; [assumption|apply clip_call_fits; assumption]).
+  rewrite (paint_root bb k c) by (intros _; split; assumption).
+  rewrite free_clip by (first [apply call_fits_sizes; assumption|apply rect_fits_nonneg; assumption]).
+  rewrite Hp. pose proof (intersection_sub_r _ _ _ Hp) as Hbb. rewrite Hbb.
+  apply free_paint_own. congruence.
+Qed.
+
+Theorem transl_bbox d bb q :
+  contains (bbox_of (Transl d) bb) q = contains bb (padd q d) /\ sz (bbox_of (Transl d) bb) = sz bb.
+Proof.
+  cbn [bbox_of]. split; [|reflexivity].
+  rewrite <- (contains_translate (translate_rect bb (pneg d)) d q), translate_rect_back. reflexivity.
+Qed.
+
+(* a translated target is exactly a target whose box is the shifted box, seen through the shift *)
+Theorem transl_exact d bb k c m q :
+  (k = DefaultOnly -> rect_fits bb /\ call_fits (transl_call d c)) ->
+  paint bb k (lower1c (Transl d) bb c) m (padd q d) =
+  if contains (bbox_of (Transl d) bb) q
+  then free_paint (bbox_of (Transl d) bb) idc c (shift d m) q
+  else m (padd q d).
+Proof.
+  intros H. cbn [lower1c]. rewrite paint_root by assumption.
+  rewrite (proj1 (transl_bbox d bb q)). rewrite free_transl. reflexivity.
+Qed.
+
+Theorem transl_exact_paint d bb k c m q :
+  (k = DefaultOnly -> rect_fits bb /\ call_fits (transl_call d c) /\ rect_fits (bbox_of (Transl d) bb) /\ call_fits c) ->
+  paint bb k (lower1c (Transl d) bb c) m (padd q d) = paint (bbox_of (Transl d) bb) k c (shift d m) q.
+Proof.
+  intros H. rewrite transl_exact by (intros E; destruct (H E) as (? & ? & _); split; assumption).
+  rewrite (paint_root (bbox_of (Transl d) bb)) by (intros E; destruct (H E) as (_ & _ & ? & ?); split; assumption).
+  reflexivity.
+Qed.
+
+(* a cropped target: origin at the top left of (area /\ parent box), reported box (0,0,size of that
+   intersection), and NO clipping: whatever the parent accepts is drawn *)
+Theorem crop_exact a bb k c m q :
+  let i := intersection a bb in
+  (k = DefaultOnly -> rect_fits bb /\ call_fits (crop_call (tl i) (sz i) c)) ->
+  bbox_of (Crop a) bb = R (P 0 0) (sz i) /\
+  paint bb k (lower1c (Crop a) bb c) m (padd q (tl i)) =
+  if contains bb (padd q (tl i))
+  then free_paint (R (P 0 0) (sz i)) idc c (shift (tl i) m) q
+  else m (padd q (tl i)).
+Proof.
+  intros i H. split; [reflexivity|]. cbn [lower1c]. fold i. rewrite paint_root by assumption.
+  rewrite free_crop. reflexivity.
+Qed.
+
+Lemma conv_call_fits f c : call_fits (conv_call f c) <-> call_fits c.
+Proof. destruct c; cbn [conv_call call_fits]; tauto. Qed.
+
+Theorem conv_exact f bb k c m q :
+  (k = DefaultOnly -> rect_fits bb /\ call_fits c) ->
+  bbox_of (Conv f) bb = bb /\
+  paint bb k (lower1c (Conv f) bb c) m q = if contains bb q then free_paint bb f c m q else m q.
+Proof.
+  intros H. split; [reflexivity|]. cbn [lower1c].
+  rewrite paint_root by (intros E; destruct (H E); split; [assumption|apply conv_call_fits; assumption]).
+  rewrite free_conv. reflexivity.
+Qed.
+
+(* every point of the box a stack reports can really be drawn (reaches the root target) *)
+Theorem bbox_visible st bb q :
+  contains (bbox_stack st bb) q = true -> g_vis (geo_of st bb) q = true.
+Proof.
+  revert q. induction st as [|ad rest IH]; intros q H; cbn [geo_of bbox_stack g_vis] in *; [assumption|].
+  rewrite <- geo_box in *. set (g := geo_of rest bb) in *.
+  destruct ad as [a|a|d|f]; cbn [geo_step g_vis bbox_of] in *.
+  - rewrite H. rewrite (IH q (intersection_sub_r _ _ _ H)). reflexivity.
+  - apply IH. apply (intersection_sub_r a). apply contains_spec. apply contains_spec in H.
+    unfold padd. cbn [tl sz px py] in *. lia.
+  - apply IH. rewrite <- (contains_translate (translate_rect (g_box g) (pneg d)) d q), translate_rect_back in H. assumption.
+  - apply IH. assumption.
+Qed.
+
+(* a clipped stack draws nowhere outside the box it reports *)
+Theorem clip_vis_in_box a rest bb q :
+  g_vis (geo_of (Clip a :: rest) bb) q = true -> contains (bbox_stack (Clip a :: rest) bb) q = true.
+Proof.
+  cbn [geo_of geo_step g_vis bbox_stack bbox_of]. rewrite geo_box. intros H. apply andb_true_iff in H. tauto.
+Qed.
+
+(* ---- histories ----------------------------------------------------------------------------------- *)
+Definition free_all (own : rect) (F : color -> color) (cs : list call) (m : pixmap) : pixmap :=
+  fold_left (fun M c => free_paint own F c M) cs m.
+
+Lemma free_all_local own F cs m m' q : m q = m' q -> free_all own F cs m q = free_all own F cs m' q.
+Proof.
+  unfold free_all. revert m m'. induction cs as [|c cs IH]; intros m m' H; cbn [fold_left]; [assumption|].
+  apply IH. apply free_paint_local. assumption.
+Qed.
+
+Lemma paint_all_app bb k l1 l2 m : paint_all bb k (l1 ++ l2) m = paint_all bb k l2 (paint_all bb k l1 m).
+Proof. unfold paint_all. apply fold_left_app. Qed.
+
+Definition op_ok (st : list adapter) (bb : rect) (k : kind) (c : call) : Prop :=
+  call_sizes c /\ (k = DefaultOnly -> rect_fits bb /\ call_fits (lower_call st bb c)).
+
+Theorem stack_history st bb k ops :
+  size_fits (sz bb) -> Forall adapter_sizes st -> Forall (op_ok st bb k) ops ->
+  forall m q,
+  paint_all bb k (flat_map (lower st bb) ops) m (padd q (g_off (geo_of st bb))) =
+  if g_vis (geo_of st bb) q
+  then free_all (g_box (geo_of st bb)) (g_col (geo_of st bb)) ops (shift (g_off (geo_of st bb)) m) q
+  else m (padd q (g_off (geo_of st bb))).
+Proof.
+  intros Hb Hst Hops. induction Hops as [|c ops [Hc Hk] Hops IH]; intros m q; cbn [flat_map].
+  - unfold paint_all, free_all. cbn [fold_left]. unfold shift. destruct (g_vis _ q); reflexivity.
+  - rewrite paint_all_app, IH. pose proof (stack_compose st bb k Hb Hst c m q Hc Hk) as H1.
+    destruct (g_vis (geo_of st bb) q); [|assumption].
+    unfold free_all at 2. cbn [fold_left]. fold (free_all (g_box (geo_of st bb)) (g_col (geo_of st bb)) ops).
+    apply free_all_local. unfold shift at 1. assumption.
+Qed.
+
+(* the executable side (what the extracted model replays): ordered stores of a history through a stack *)
+Lemma run_stack_writes_all bb k st ops :
+  run_stack bb k st ops = writes_all bb k (flat_map (lower st bb) ops).
+Proof.
+  unfold run_stack, writes_all. induction ops as [|op ops IH]; cbn [flat_map]; [reflexivity|].
+  rewrite flat_map_app, IH. reflexivity.
+Qed.
+
+Theorem run_stack_render bb k st ops p :
+  rect_fits bb -> Forall call_fits (flat_map (lower st bb) ops) ->
+  last_write p (run_stack bb k st ops) = render bb k (flat_map (lower st bb) ops) p.
+Proof. intros Hb H. rewrite run_stack_writes_all. symmetry. apply render_writes; assumption. Qed.
